@@ -95,7 +95,7 @@ def portsAt (p : Bytes) (off : Nat) : Option (Nat × Nat) :=
   | _, _ => none
 
 /-- UDP/IPv4: time-exceeded (code 0) or destination-unreachable from `a` quoting our datagram whose
-    IP id is `41821 + t`; destination iff `a` is the target -/
+    IP id is the one the probe for TTL `t` carried; destination iff `a` is the target -/
 def genuineUdp4 (c : UdpCfg) (sent : List Sent) (t : Nat) (a : Bytes) (dest : Bool) (p : Bytes) : Bool :=
   match view4 p with
   | none => false
@@ -109,7 +109,7 @@ def genuineUdp4 (c : UdpCfg) (sent : List Sent) (t : Nat) (a : Bytes) (dest : Bo
         v.outerSrc = a && v.outerProto = 1 && v.outerFrag = 0 &&
         ((q.icmpType = 11 && q.icmpCode = 0) || q.icmpType = 3) &&
         q.qDst = c.target && dp = c.tport && (c.loosen || (q.qSrc = c.localA && sp = c.lport)) &&
-        sent.any (fun s => s.ttl = t && s.id = q.qId) && q.qId = (41821 + t) % 65536 &&
+        sent.any (fun s => s.ttl = t && s.id = q.qId) &&
         (dest == decide (a = c.target))
 
 /-- TCP SYN, quoted form: time-exceeded code 0 from `a` quoting (id, seq) of the probe for TTL `t` -/
@@ -255,7 +255,8 @@ def genuineIcmp6 (c : IcmpCfg) (sent : List Sent) (t : Nat) (a : Bytes) (dest : 
           (ety = 128 || ety = 129) && eid = c.echoId && eseq = t && sentTTL sent t && c.min ≤ t && t ≤ c.max
         | _, _, _ => false
 
-/-- UDP/IPv6 accepted outcome: quoted next header 17, quoted payload length = 13 + t -/
+/-- UDP/IPv6 accepted outcome: quoted next header 17, quoted payload length = the length (the
+    per-probe identifier of this variant) the probe for TTL `t` carried -/
 def genuineUdp6 (c : UdpCfg) (sent : List Sent) (t : Nat) (a : Bytes) (dest : Bool) (p : Bytes) : Bool :=
   match view6 p with
   | none => false
@@ -268,7 +269,7 @@ def genuineUdp6 (c : UdpCfg) (sent : List Sent) (t : Nat) (a : Bytes) (dest : Bo
       | some (sp, dp) =>
         v.outerSrc = a && v.upper = 58 && ((q.icmpType = 3 && q.icmpCode = 0) || q.icmpType = 1) &&
         q.qDst = c.target && dp = c.tport && (c.loosen || (q.qSrc = c.localA && sp = c.lport)) &&
-        q.qNh = 17 && q.qPlen = 13 + t && sent.any (fun s => s.ttl = t && s.id = q.qPlen) &&
+        q.qNh = 17 && sent.any (fun s => s.ttl = t && s.id = q.qPlen) &&
         (dest == decide (a = c.target))
 
 end TRV.Spec
